@@ -46,6 +46,11 @@ CHECKS = {
             "13 ignore-list pairs x anonymisation off/on/switched on by API x 5 persistent-client kinds x ignore flags x ANY-refusal, each x 43 requests (name spellings, IPv4/IPv6/4-in-6 sources, with/without ClientID); after every request the memory buffer (API), the flushed file, the API over the file and /control/stats are inspected and cleared. Restart scenarios check that the API hides entries recorded earlier whose name/client is ignored now, including several ClientID clients behind one address.",
             "ignore-rule matching delegated to urlfilter; a 4-in-6 source is the same client as its IPv4 form; client-flag hiding is judged with anonymisation off (anonymised entries cannot be attributed).",
             "DESIGN.md §4 C08", "E1-stateless"),
+    "C09": ("model_checking",
+            "explicit-state BFS over update/advance/flush/restart/limit/clear/read histories on the real StatsCtx (bbolt) against an hour->counters reference, plus preemption-bounded exhaustive schedule exploration of Update || flush || API read || reset under the cooperative scheduler",
+            "Histories of depth 5 (quick) / 7 (thorough) over 20 operations (5 result categories, 2 clients, 2 domains, hour advances by 1, 2, L-1, L, L+1, flush, clean restart, retention limits 1/2/3/24/192 h through both handlers, clear); after every transition GET /control/stats is compared with the reference (totals, hourly series per hour, daily series <= totals, window). Schedules: 10 thread sets x {0,2} earlier updates, all interleavings at lock/atomic operations and lock releases of stats and bbolt with <=1 (quick) / <=2 (thorough) preemptions; every response internally consistent and every update counted exactly once after quiescence.",
+            "hours that lay outside the window at some moment may legitimately have been deleted (0 or full count accepted); a read refused with HTTP 500 while a reset replaces the database is accepted; top_* lists are not compared.",
+            "DESIGN.md §4 C09", "E1-BFS+E2"),
     "C10": ("model_checking",
             "explicit-state breadth-first search over DHCP message / static-lease / expiry / restart histories executed on the real v4Server with the real database wiring, level-synchronous across 16 processes with global state deduplication, lease-table invariants and a tiny allocator reference model",
             "Subnet /29 with a 3-address pool, 3 clients (thorough: 4 clients, hostnames, requested addresses), 92 operations (DISCOVER, REQUEST selecting/init-reboot/renew, DECLINE, RELEASE, static add/update/remove inside/outside pool/gateway/out of subnet, 2 h clock advance, restart), depth 4 (quick) / 6 (thorough); after every transition: one lease per address and client, dynamic leases inside the pool, list = hostname index = IP index = bitset, every OFFER/ACK against the model, leases.json = memory, restart preserves table and DNS answers; every state is also probed with a DISCOVER from a new client (offer iff a pool address is free).",
